@@ -37,9 +37,10 @@ class Stats:
 class Solver:
     """one incremental z3 solver per configuration; atoms get boxes on first use"""
 
-    def __init__(self, timeout_ms=10000, default_box=(Fraction(-1), Fraction(1)), stats=None):
+    def __init__(self, timeout_ms=60000, default_box=(Fraction(-1), Fraction(1)), stats=None, nl_timeout_ms=10000):
         self.s = z3.Solver()
         self.s.set('timeout', timeout_ms)
+        self.timeout_ms = timeout_ms; self.nl_timeout_ms = nl_timeout_ms
         self.vars = {}
         self.box = {}
         self.default_box = default_box
@@ -237,6 +238,7 @@ class Solver:
                     st.solver_s += time.time() - t0
                     return 'sat', got
         self._ensure_vars(d, with_defs)
+        self.s.set('timeout', self.timeout_ms if lin else min(self.timeout_ms, self.nl_timeout_ms))
         self.s.push()
         try:
             if scaled is None:
